@@ -15,6 +15,8 @@ into coq/Units/Generated/UnitTable.v as Coq data:
   gen_stems       stems of the sqX / cbX / X2 / X3 families, resolved
   gen_prefix_status  prefix -> status of prefix++name for every name
   gen_pi_probe    the tree's own approximation of pi
+  gen_defaults    lookup_default_unit: base-unit map -> unit name (DEFAULT_UNITS
+                  and the base units, found by probing with every literal)
 
 The file is rewritten only when its content changes.  Usable standalone
 (tools/setup.sh) and from gen/c11.py etc. (generate())."""
@@ -259,10 +261,26 @@ def collect():
                 codes.append(2)
         pstatus.append((p, codes))
     pi_probe = dec_resolved(call([sx([Sym('eval-expr'), CTX, '1/(1/pi)'])])[0])
+    # --- lookup_default_unit, by probing with every literal and literal^1
+    keys = []
+    for l in lits:
+        for k in (l, l + '^1'):
+            if k not in keys:
+                keys.append(k)
+    ans = call([sx([Sym('default-units')] + keys[i:i + 400]) for i in range(0, len(keys), 400)])
+    flat = [a for chunk in ans for a in chunk]
+    defaults = []
+    for k, a in zip(keys, flat):
+        if a[0] == b'some':
+            try:
+                m = [(part.rsplit('^', 1)[0], int(part.rsplit('^', 1)[1])) for part in k.split(' ')]
+            except Exception:
+                raise TranslatorError('default-unit key not of the form name^int ...: %r' % k)
+            defaults.append((m, a[1].decode()))
     return {'defs': defs, 'short': short, 'currencies': currencies, 'names': names, 'all_names': all_names,
             'bodies': list(zip(bodies, body_vals)), 'cur_vals': list(zip(currencies, cur_vals)),
             'name_vals': list(zip(all_names, name_vals)), 'stems': list(zip(stems, stem_vals)),
-            'prefixes': prefixes, 'pstatus': pstatus, 'ok_pairs': okpairs, 'pi_probe': pi_probe}
+            'prefixes': prefixes, 'pstatus': pstatus, 'ok_pairs': okpairs, 'pi_probe': pi_probe, 'defaults': defaults}
 
 
 def reduced_or_fail(r, what):
@@ -303,6 +321,9 @@ def render(t):
     w('')
     pv = t['pi_probe']
     w('Definition gen_pi_probe : lres value := %s.' % cres(pv))
+    w('')
+    w('Definition gen_defaults : list (hmap * str) := ' +
+      clist(['([%s], %s) (* %s *)' % (';'.join('(%s,%s)' % (cstr(k), cq(Fraction(e))) for k, e in m), cstr(u), safe(u)) for m, u in t['defaults']]) + '.')
     w('')
     return '\n'.join(o)
 
@@ -345,6 +366,7 @@ Definition gen_stems : list (str * lres (value * option (named_unit * bool))) :=
 Definition gen_prefixes : list str := [].
 Definition gen_prefix_status : list (str * list N) := [].
 Definition gen_pi_probe : lres value := LNotFound.
+Definition gen_defaults : list (hmap * str) := [].
 """
 
 
